@@ -41,7 +41,9 @@ pub fn hash_of<T: Hash>(t: &T) -> u64 {
 
 /// Run `f`, turning a panic into `Err(message @ location)`.
 pub fn guarded<T>(f: impl FnOnce() -> T) -> Result<T, String> {
+    let prev = QUIET_PANICS.with(|q| q.replace(true));
     let r = std::panic::catch_unwind(std::panic::AssertUnwindSafe(f));
+    QUIET_PANICS.with(|q| q.set(prev));
     match r {
         Ok(v) => Ok(v),
         Err(e) => {
@@ -60,7 +62,7 @@ pub fn guarded<T>(f: impl FnOnce() -> T) -> Result<T, String> {
 
 thread_local! {
     pub static LAST_PANIC_LOC: std::cell::RefCell<Option<String>> = const { std::cell::RefCell::new(None) };
-    pub static QUIET_PANICS: std::cell::Cell<bool> = const { std::cell::Cell::new(true) };
+    pub static QUIET_PANICS: std::cell::Cell<bool> = const { std::cell::Cell::new(false) };
 }
 
 /// Install a panic hook that records the location (thread-local) and stays silent for guarded code.
